@@ -367,12 +367,16 @@ def _member_codes(p, f: Func, e):
     if isinstance(op, (ast.In, ast.NotIn)):
         raw = p.fold(f.module, e.comparators[0], None, f)
     elif isinstance(op, (ast.Eq, ast.NotEq)):
-        raw = p.fold(f.module, e.comparators[0], None, f)
-        raw = (raw,) if isinstance(raw, (int, str)) and not isinstance(raw, bool) else None
+        raw = None
+        for side in (e.comparators[0], e.left):
+            v = p.fold(f.module, side, None, f)
+            if isinstance(v, (int, str)) and not isinstance(v, bool):
+                raw = (v,)
+                break
     else:
         return None
     codes = _codes(raw)
-    if not codes:
+    if not codes or not all(100 <= c <= 599 for c in codes):
         return None
     return frozenset(codes), tuple(raw), isinstance(op, (ast.In, ast.Eq))
 
@@ -481,7 +485,8 @@ class StatusBranches:
         rest = [c for c in outer if c is not tt]
         if len(rest) == 1:
             self.btest = rest[0]
-        elif not rest and tt in outer:
+        elif not rest and tt in outer and tt.codes != TYPELESS:
+            # one test plays both roles (the media type is dropped on the whole bodiless branch): reported by _status_sets
             self.btest = tt
         else:
             raise AnchorError('%s: expected exactly one HEAD-or-bodiless test, found %d' % (f.qual, len(rest)))
@@ -496,14 +501,23 @@ def _status_atom(p, f: Func, req: str, code: int, head: bool):
         m = _member_codes(p, f, e)
         if m is not None:
             return (code in m[0]) == m[2]
-        if isinstance(e, ast.Compare) and len(e.ops) == 1 and attr_of(e.left, req, ('method',)) \
-                and isinstance(e.comparators[0], ast.Constant) and e.comparators[0].value == 'HEAD':
-            if isinstance(e.ops[0], ast.Eq):
-                return head
-            if isinstance(e.ops[0], ast.NotEq):
-                return not head
-        return None
+        pol = _head_test(e, req)
+        return None if pol is None else (head == pol)
     return atom
+
+
+def _head_test(e, req: str) -> Optional[bool]:
+    """True for `<req>.method == 'HEAD'`, False for `!=` (either operand order), else None"""
+    if isinstance(e, ast.Compare) and len(e.ops) == 1:
+        x, y = e.left, e.comparators[0]
+        if attr_of(y, req, ('method',)):
+            x, y = y, x
+        if attr_of(x, req, ('method',)) and isinstance(y, ast.Constant) and y.value == 'HEAD':
+            if isinstance(e.ops[0], ast.Eq):
+                return True
+            if isinstance(e.ops[0], ast.NotEq):
+                return False
+    return None
 
 
 def _codes(val) -> Optional[Set[int]]:
@@ -1071,14 +1085,7 @@ def _wsgi_locals(f: Func):
 
 
 def _head_operand(run, f: Func, btest, req: str, tag: str):
-    def head(e):
-        if isinstance(e, ast.Compare) and len(e.ops) == 1 and attr_of(e.left, req, ('method',)) \
-                and isinstance(e.comparators[0], ast.Constant) and e.comparators[0].value == 'HEAD':
-            if isinstance(e.ops[0], ast.Eq):
-                return True
-            if isinstance(e.ops[0], ast.NotEq):
-                return False
-        return None
+    head = lambda e: _head_test(e, req)  # noqa: E731
     run.check(eval3(btest.ast, head) is (btest.label == 'T'), '%s: a HEAD request takes the bodiless branch whatever the status' % tag, f, btest.ast,
               runtime_witness='HEAD request: the response body is sent')
 
@@ -1665,16 +1672,19 @@ def r7_sse_and_status(run):
 
 
 def check(run):
-    run.assume('send/start_response are the server callables passed to __call__; every send site is a dict literal or a module constant')
+    run.assume('send/start_response are the server callables passed to __call__; every send site passes a dict display, a module '
+               'constant, or a local bound to a dict display in __call__ (folded with its constant-key field stores)')
+    run.assume('the server may keep a reference to an event handed to send and serialise it later (ASGI does not oblige send to '
+               'copy); a status compared with a constant set is compared by value, whatever the constant is called')
     run.assume('hasattr() on the response stream does not raise')
     run.assume('a str/bytes status containing a space is a well-formed status line (value-level, not decided)')
     run.assume('custom Response subclasses honour the render_body contract')
-    # floors: today's counts are R1 12 (protocol + 11 send sites), R2 4, R3 20, R4 30, R5 15, R6 7, R7 10
-    run.rule('R1', r1_asgi_protocol, 'ASGI HTTP event protocol (typestate over send)', floor=9)
+    # floors: today's counts are R1 13 (protocol + freshness of the shared EOF constant + 11 send sites), R2 4, R3 20, R4 36, R5 17, R6 10, R7 10
+    run.rule('R1', r1_asgi_protocol, 'ASGI HTTP event protocol (typestate over send); sent event objects are not modified', floor=9)
     run.rule('R2', r2_wsgi, 'WSGI: one start_response with normalised status and _wsgi_headers, body iterable returned', floor=4)
     run.rule('R3', r3_precedence, 'text > data > media in the three render siblings; stream only when the body is None', floor=18)
-    run.rule('R4', r4_bodiless_typeless, 'bodiless/typeless constant sets and branches; default content type', floor=26)
-    run.rule('R5', r5_content_length, 'forced Content-Length equals the bytes sent on non-streamed, body-bearing paths', floor=13)
+    run.rule('R4', r4_bodiless_typeless, 'bodiless/typeless status sets (by value) and branches; default content type', floor=26)
+    run.rule('R5', r5_content_length, 'forced Content-Length equals the bytes sent on non-streamed, body-bearing paths; none computed for bodiless non-HEAD', floor=13)
     run.rule('R6', r6_close, 'response streams are closed exactly once on every exit', floor=7)
     run.rule('R7', r7_sse_and_status, 'SSE event framing; status-line shape', floor=9)
     # media is the last-precedence body source: what is sent for it is the cached rendition, which must belong to
